@@ -72,6 +72,7 @@ class Ctx:
             "emfile_at": knobs.get("emfile_at"),
             "relpaths": knobs.get("relpaths", False),
             "enospc": knobs.get("enospc"),
+            "short_reads": knobs.get("short_reads"),
         }
         if knobs.get("preexist"):
             # a re-run: the output files are already there, longer than what will be written now
@@ -182,6 +183,8 @@ def schedule_probes(log):
         p["result_parked_out_of_order"] = 1
     if max_parked >= 2:
         p["two_or_more_results_parked"] = 1
+    if max_parked >= 16:
+        p["sixteen_or_more_results_parked"] = 1
     # (the reader cannot finish before a worker took a chunk: every chunk and every stop token
     # needs a fresh work request, so that condition of DESIGN §3.7 is unreachable and not probed)
     first_result = next((st for st, t, op, o, _ in log if t == "main" and op == "recv_bytes"), None)
@@ -484,6 +487,8 @@ def build_evidence(prop_mod, seed, tier, judged, skipped, harness_errors, known_
     evaluated = sum(1 for r in judged if not r["discard"])
     if probes.get("env_emfile"):
         faults["emfile_on_open (environment)"] = probes["env_emfile"]
+    if probes.get("env_short_reads"):
+        faults["short_reads_from_a_pipe (environment)"] = probes["env_short_reads"]
     if probes.get("env_enospc"):
         faults["disk_full_behind_an_output_file (environment)"] = probes["env_enospc"]
     if probes.get("env_devfd_missing_in_spawned_child"):
